@@ -304,21 +304,28 @@ def load_known():
     return json.load(open(p))
 
 
+def _param_str(v, names=('src', 'lhs')):
+    for i in v['inputs']:
+        if i['fn'] == 'vfParamStr' and i['name'] in names and isinstance(i['value'], dict):
+            return bytes(i['value']['str']).decode('utf-8', 'replace')
+    return None
+
+
 def match_known(known, prop, v):
-    """a known finding matches by property, harness, assertion id and (optional) witness-class predicate over inputs"""
+    """a known finding matches by property, harness, assertion id(s), optionally the template source (src) and
+    a witness-class predicate over named inputs (where); anything else is a new violation"""
     for k in known.get('known', []):
-        if k['property'] != prop or k['harness'] != v['harness'] or k['assert'] != v['assert']:
+        asserts = k['assert'] if isinstance(k['assert'], list) else [k['assert']]
+        if k['property'] != prop or k['harness'] != v['harness'] or v['assert'] not in asserts:
+            continue
+        if 'src' in k and _param_str(v) not in k['src']:
             continue
         cls = k.get('where')
         if cls:
             vals = {}
             for i in v['inputs']:
                 vals.setdefault(i['name'], i['value'])
-            ok = True
-            for name, allowed in cls.items():
-                if vals.get(name) not in allowed:
-                    ok = False
-            if not ok:
+            if any(vals.get(name) not in allowed for name, allowed in cls.items()):
                 continue
         return k
     return None
